@@ -161,8 +161,8 @@ def int_values():
 def list_values(rng, full=True):
     """lists of 0 / 1 / many; elements with and without a space"""
     a = [[], ["one"], ["x", "y", "z"], ["å", "a&b=c", "100%", "q\"'"], ["a+b", "x#y"], ["a", ""], ["", "b"],
-         ["tab\tx", "nl\ny"], [LONG, "z"]]
-    spaced = [["John Doe"], ["code", "code id_token"], ["a b", "c"], ["x", " y"], [" "]]
+         ["tab\tx", "nl\ny"], [LONG.replace(" ", ""), "z"]]
+    spaced = [["John Doe"], ["code", "code id_token"], ["a b", "c"], ["x", " y"], [" "], [LONG, "z"]]
     return a, spaced
 
 
